@@ -536,6 +536,17 @@ class Intrinsics:
         """obj[key] on opaque data: may raise KeyError/IndexError/TypeError, else an opaque value.
         This is the only operation the engine lets code apply to template data (C05)."""
         ex = self.ex
+        if ex.contract.obj_protocol == "mapping":
+            # the opaque object is a Mapping: m[k] returns map_at(m, k) iff map_has(m, k), else KeyError
+            self.use("m[k] on an opaque Mapping: map_at(m,k) if map_has(m,k) else KeyError (uninterpreted)")
+            kt, kk = ex.lift(key)
+            has = z3.Function(f"map_has_{kk}", ObjSort, ELEM_SORT[kk], BoolSort)(obj.t, kt)
+            at = z3.Function(f"map_at_{kk}", ObjSort, ELEM_SORT[kk], ObjSort)(obj.t, kt)
+            if ex.pure:
+                return SAny(at)
+            if ex.decide(has):
+                return SAny(at)
+            ex.raise_builtin("KeyError", "m[k]")
         self.use("obj[key] on opaque data: returns an opaque value or raises KeyError/IndexError/TypeError")
         ex.trace_event("getitem", obj, key)
         o = ex.fresh("getitem_outcome", "int")
@@ -679,7 +690,8 @@ class Intrinsics:
     def dict_nonempty(self, d: HDict):
         if d.order is not None:
             return z3.Length(d.order) > 0
-        raise Unsupported("truth of symbolic dict")
+        k = z3.Const("k!ne", ELEM_SORT[d.ksort])
+        return z3.Exists([k], z3.Select(d.has, k))
 
     def havoc_dict(self, name, d: HDict):
         ex = self.ex
@@ -1019,6 +1031,8 @@ class Intrinsics:
             ex.call_repo_function(FuncRef(r[1], r[3], cls=(r[1], r[2]), qual=f"{r[2].name}.__init__"), [obj] + list(args), kwargs, obj, frame)
             return obj
         if r[0] == "external":
+            if (r[1], "__init__") not in _METHODS and not args and not kwargs:
+                return obj  # object.__init__
             self.external_method(obj, r[1], "__init__", args, kwargs)
             return obj
         raise Unsupported(f"constructor of {cref.name}")
